@@ -45,6 +45,10 @@ class _HMixin:
         if x is None:
             self.sh.log("item_none", wid=self.wid)
             return None
+        if not isinstance(x, (tuple, list)):
+            # a piece of a data item (the item was a list and has been taken apart)
+            self.sh.log("item_torn", wid=self.wid)
+            return ("torn", repr(x)[:40])
         call, idx, dur = x[:3]
         self.items_done += 1
         self.sh.log("item", wid=self.wid, call=call, idx=idx)
